@@ -16,6 +16,7 @@ package gohbase
 // Race detector on. Events go to rl_trace.ndjson for TLC (Trace_RequestLoop).
 
 import (
+	"io"
 	"bytes"
 	"context"
 	"fmt"
@@ -104,6 +105,49 @@ func (e *rlEnv) goPut(prefix string) *rlCall {
 	}()
 	return cc
 }
+// goOp: the other single-row calls (the request loop is the same, the entry points are not)
+func (e *rlEnv) goOp(kind, prefix string) *rlCall {
+	cc := &rlCall{id: e.newID(), kind: kind}
+	e.tr.Emit("call", "id", cc.id)
+	e.mu.Lock()
+	e.calls = append(e.calls, cc)
+	e.mu.Unlock()
+	e.wg.Add(1)
+	go func() {
+		defer e.wg.Done()
+		row := []byte(prefix + "#" + cc.id)
+		vals := map[string]map[string][]byte{"f": {"q": []byte("v")}}
+		var err error
+		switch kind {
+		case "delete":
+			d, _ := hrpc.NewDel(e.callCtx(), []byte("t"), row, vals)
+			_, err = e.c.Delete(d)
+		case "append":
+			a, _ := hrpc.NewApp(e.callCtx(), []byte("t"), row, vals)
+			_, err = e.c.Append(a)
+		case "increment":
+			i, _ := hrpc.NewInc(e.callCtx(), []byte("t"), row, map[string]map[string][]byte{"f": {"q": {0, 0, 0, 0, 0, 0, 0, 1}}})
+			_, err = e.c.Increment(i)
+		case "checkandput":
+			p, _ := hrpc.NewPut(e.callCtx(), []byte("t"), row, vals)
+			_, err = e.c.CheckAndPut(p, "f", "absent", nil)
+		case "scan1": // a one-row scan: open + close on the region of the row
+			sc, _ := hrpc.NewScanRange(e.callCtx(), []byte("t"), row, append(append([]byte{}, row...), 0), hrpc.NumberOfRows(1))
+			s := e.c.Scan(sc)
+			_, err = s.Next()
+			if err == io.EOF {
+				err = nil
+			}
+			s.Close()
+		}
+		e.mu.Lock()
+		cc.err, cc.returned, cc.at = err, true, time.Now()
+		e.mu.Unlock()
+		e.tr.Emit("ret", "id", cc.id, "err", rlErrClass(err), "class", rlJavaClass(err))
+	}()
+	return cc
+}
+
 func (e *rlEnv) goBatch(prefixes ...string) {
 	ids := make([]string, len(prefixes))
 	for i := range prefixes {
@@ -743,7 +787,7 @@ func TestVerifRequestLoop(t *testing.T) {
 			callers := func(n int) {
 				for i := 0; i < n; i++ {
 					p := rlPrefixes[sr.Intn(len(rlPrefixes))]
-					switch sr.Intn(3) {
+					switch sr.Intn(5) {
 					case 0:
 						e.goGet(p)
 					case 1:
@@ -754,6 +798,8 @@ func TestVerifRequestLoop(t *testing.T) {
 						} else {
 							e.goPut(p)
 						}
+					default:
+						e.goOp([]string{"delete", "append", "increment", "checkandput"}[sr.Intn(4)], p)
 					}
 				}
 			}
